@@ -42,7 +42,31 @@ def main(argv):
             from . import cast
             cast.preload(repo, mod.PRELOAD_C)
         mod.run(ck)
-        return ck.finish(mod.LEVEL_TEXT, mod.ASSUMPTIONS)
+        bad_controls = []
+        if tier == "thorough":
+            # positive / negative controls: every catalogued variant of this property is regenerated in a scratch copy
+            # (outside /repo and /verif) and the quick check must fire / stay silent as catalogued - a rule that matches
+            # nothing must not pass vacuously, and a neutral edit must not raise an alarm
+            try:
+                sys.path.insert(0, VERIF)
+                from selftest import run as st
+                vs = st.load_variants([pid])
+                import concurrent.futures
+                with concurrent.futures.ThreadPoolExecutor(max_workers=int(os.environ.get("VERIF_JOBS", "16"))) as ex:
+                    for v, status, msg in ex.map(st.run_variant, vs):
+                        ck.controls.append({"variant": v["name"], "expect": v["expect"], "rule": v.get("rule"), "result": status})
+                        if status != "ok":
+                            bad_controls.append("%s (%s): %s" % (v["name"], v["expect"], status))
+            except Exception as e:
+                bad_controls.append("control runner failed: %r" % (e,))
+        rc = ck.finish(mod.LEVEL_TEXT, mod.ASSUMPTIONS)
+        if bad_controls:
+            for b in bad_controls:
+                print("ANALYSIS-ERROR property=%s control not as expected: %s" % (pid, b))
+            return rc if rc == 1 else 2
+        if tier == "thorough":
+            print("%s: %d control variant(s) behaved as catalogued" % (pid, len(ck.controls)))
+        return rc
     except AnalysisError as e:
         print("ANALYSIS-ERROR property=%s %s" % (pid, e))
         return 2
